@@ -36,6 +36,7 @@ type plScenario struct {
 	ShortCtx    bool // producers call IngestRows with contexts that expire while the buffer is full (stalled store)
 	LazyRecv    bool // some unbuffered channels get their receiver only after a delay (graceful stops only)
 	Flushers    int
+	Pattern     []string // scripted done-channel shape of the first batches: "lazy" (unbuffered, late receiver) | "unbuf" | "buf"
 }
 
 type plRun struct {
@@ -127,8 +128,17 @@ func runPlScenario(r Rng, sc plScenario) *plRun {
 			b.chanCap = 0
 			if sc.Abandoned && r.Chance(0.5) {
 				b.abandon = true
-			} else if sc.LazyRecv && r.Chance(0.6) {
+			} else if sc.LazyRecv && (r.Chance(0.6) || sc.Unbuffered >= 1) {
 				b.lazy = time.Duration(5+r.IntN(35)) * time.Millisecond
+			}
+		}
+		if i := nextID - 1; i < len(sc.Pattern) {
+			b.kind, b.nrows, b.abandon, b.lazy, b.chanCap = "rows", 1, false, 0, 1
+			switch sc.Pattern[i] {
+			case "lazy":
+				b.chanCap, b.lazy = 0, 40*time.Millisecond
+			case "unbuf":
+				b.chanCap = 0
 			}
 		}
 		b.ch = make(chan error, b.chanCap)
@@ -232,7 +242,7 @@ func runPlScenario(r Rng, sc plScenario) *plRun {
 		doStop(ctx)
 		cancel()
 		prodWG.Wait()
-	case "deadline", "deadline-late-afterfunc":
+	case "deadline", "deadline-late-afterfunc", "deadline-very-late-afterfunc":
 		if g != nil {
 			g.waitBlocked(300 * time.Millisecond)
 		}
@@ -242,6 +252,10 @@ func runPlScenario(r Rng, sc plScenario) *plRun {
 			ctx, cancel := context.WithTimeout(context.Background(), run.deadline)
 			doStop(ctx)
 			cancel()
+		} else if sc.Stop == "deadline-very-late-afterfunc" {
+			// the context reports Done on time but runs AfterFunc callbacks long after: nothing Stop promises
+			// by its deadline may hang on such a callback
+			doStop(newLateAfterCtx(run.deadline, 1500*time.Millisecond))
 		} else {
 			doStop(newLateAfterCtx(run.deadline, 250*time.Millisecond))
 		}
@@ -475,6 +489,11 @@ func runPipeline(c *ctx, which string) {
 	// scripted corners first
 	scripted := []plScenario{
 		{Name: "never-started-graceful", IngestCap: 3, MaxRows: 2, Producers: 1, PerProducer: 2, Start: "never", Store: "fast", Stop: "graceful"},
+		{Name: "never-started-lazy-receivers", IngestCap: 5, MaxRows: 2, Producers: 1, PerProducer: 4, Start: "never", Store: "fast", Stop: "graceful", Unbuffered: 1, LazyRecv: true},
+		{Name: "never-started-very-late-afterfunc", IngestCap: 5, MaxRows: 2, Producers: 1, PerProducer: 5, Start: "never", Store: "fast", Stop: "deadline-very-late-afterfunc", Unbuffered: 0.5, Abandoned: true},
+		{Name: "very-late-afterfunc", IngestCap: 4, MaxRows: 1, Producers: 1, PerProducer: 4, Start: "normal", Store: "stall", Stop: "deadline-very-late-afterfunc", Unbuffered: 0.4, Abandoned: true},
+		{Name: "lazy-first-waiter", IngestCap: 6, MaxRows: 50, Producers: 1, PerProducer: 4, Start: "normal", Store: "fast", Stop: "graceful", Flushers: 1, Pattern: []string{"lazy", "buf", "lazy", "buf"}},
+		{Name: "lazy-first-waiter-at-stop", IngestCap: 6, MaxRows: 50, Producers: 1, PerProducer: 3, Start: "normal", Store: "fast", Stop: "graceful", Pattern: []string{"lazy", "buf", "buf"}},
 		{Name: "before-start", IngestCap: 3, MaxRows: 2, Producers: 2, PerProducer: 3, BeforeStart: 3, Start: "normal", Store: "fast", Stop: "graceful"},
 		{Name: "late-afterfunc", IngestCap: 4, MaxRows: 1, Producers: 1, PerProducer: 4, Start: "normal", Store: "stall", Stop: "deadline-late-afterfunc"},
 		{Name: "deadline-wedged", IngestCap: 2, MaxRows: 1, Producers: 2, PerProducer: 4, Start: "normal", Store: "stall", Stop: "deadline", Unbuffered: 0.4, Abandoned: true},
